@@ -53,6 +53,16 @@ THEOREMS = [
     "C06_nest_rerun",
     "C06_nest_rerun_no_downstream",
     "C06_nest_rerun_pinned_witness",
+    "C06_suppress_bookkeeping",
+    "C06_suppress_result",
+    "C06_suppress_nest",
+    "C06_suppress_pinned_witness",
+    "C06_flowx_discipline",
+    "C06_flowx_ended",
+    "C06_flowx_raises",
+    "C06_nestfine_refines",
+    "C06_nestfine_no_downstream",
+    "C06_nestfine_nobody_running",
 ]
 RULE = (
     "(dag) random DAGs (2..N term nodes) x every kind of fault position (starting node, inner node, two at once) x "
@@ -158,6 +168,10 @@ def gen_cases(rng, tier):
         sweep = must + rng.sample(rest, 40)
     yield from sweep
     yield from join_histories((0, 1, 2) if quick else (0, 1, 2, 3), quick)
+    # the fine interleaving inside nested composites
+    for depth, count in ((1, 20 if quick else 250), (2, 16 if quick else 250), (3, 0 if quick else 100)):
+        for _ in range(count):
+            yield gen_nfine_case(rng, depth, N.EXCEPTIONS)
     # every completion order at every schedule point (stateless DFS), small trees
     for _ in range(6 if quick else 150):
         c = gen_nest_case(rng, rng.choice([1, 1, 2]), N.EXCEPTIONS, n_max=3)
@@ -417,6 +431,8 @@ def run_impl(case):
                  "late_completions": len(r["trace"]), "prerun": int(bool(case.get("prerun"))),
                  "several_faults": int(len(hit) > 1), "history_runs": len(r.get("more", ())),
                  "suppressed": int(bool(case.get("suppress"))), "outer_macro": int(case.get("outer") == "macro"),
+                 "nested_fine": int(bool(case.get("nfine"))),
+                 "nested_fine_halves_below_top": sum(1 for t in r["trace"] if case.get("nfine") and "." in t.split(":")[-1]),
                  **{f"exc:{case['fails'][l]}": 1 for l in hit},
                  **({"nest_dfs_cases": 1, "nest_dfs_schedules": len(runs)} if runs else {})}
         return {"obs": _nest_obs(case, r), "r": r, "runs": runs or [r], "stats": stats}
@@ -1074,8 +1090,16 @@ def _nest_one_run(case, step, wf, nodes, progs, composites, gid_path, leaf_gid, 
 
     for l, key in step["fails"].items():
         N.EXC[leaf_gid[_ppath(l)]] = key
-    sched = _Sched(list(step["choices"]), ident=lambda owner: _pstr(_node_path(owner)), late=set(case.get("late", ())))
-    exe = CtlExecutor(sched, case.get("mode", "ctl"))
+    fine = bool(case.get("nfine"))
+    if fine:
+        # callbacks of executor children on their own threads, stepped in two halves (macros run locally)
+        from .execfine import FineInstrument, FineScheduler
+
+        sched = FineScheduler(list(step["choices"]), ident=lambda owner: _pstr(_node_path(owner)))
+        Instrument = FineInstrument  # noqa: N806
+    else:
+        sched = _Sched(list(step["choices"]), ident=lambda owner: _pstr(_node_path(owner)), late=set(case.get("late", ())))
+    exe = CtlExecutor(sched, "ctl" if fine else case.get("mode", "ctl"))
     exe_plain = CtlExecutor(sched, "ctl")
     for l in step["exec"]:
         p = _ppath(l)
@@ -1129,7 +1153,8 @@ def _nest_one_run(case, step, wf, nodes, progs, composites, gid_path, leaf_gid, 
             "chain_types": c06_chain(exc),
             "raised_is_orig": {_pstr(gid_path[g]): any(e is x for x in _chain_objs(exc)) for g, e in N.RAISED.items()},
             "raised_types": {_pstr(gid_path[g]): type(e).__name__ for g, e in N.RAISED.items()},
-            "trace": list(sched.trace), "spurious_sleeps": sched.spurious,
+            "trace": list(sched.trace), "spurious_sleeps": getattr(sched, "spurious", 0),
+            "parked": [cb.k for cb in getattr(sched, "parked", [])],
             "wiring": {_pstr(p): w for p, w in wiring.items()},
             "flags": {_pstr(p): (bool(n.running), bool(n.failed)) for p, n in nodes.items()},
             "running_children": {_pstr(p): [int(l[1:]) for l in getattr(nodes[p], "running_children", [])]
@@ -1157,7 +1182,11 @@ def _nest_one_run(case, step, wf, nodes, progs, composites, gid_path, leaf_gid, 
                     _os.remove(_os.path.join(_d, _f))
         n_late = 0
         try:
-            n_late = sched.drain() if sched.jobs else 0
+            if fine:
+                n_late = sched.release_all()
+                r["late_tokens"] = [t for t in sched.tokens if t.startswith("L:")]
+            else:
+                n_late = sched.drain() if sched.jobs else 0
         except BaseException:  # noqa: BLE001
             n_late = -1
         r["calls_after_late"] = {_pstr(p): N.CALL_LOG.count(g) for p, g in leaf_gid.items()} if n_late else None
@@ -1225,7 +1254,8 @@ def _nest_obs(case, r):
             f"{tag} over {'true' if over else 'false'}",
             f"{tag} failed {'true' if r['flags'][ps][1] else 'false'}",
             f"{tag} exec [{','.join(map(str, ex))}]",
-            f"{tag} done [{','.join(map(str, done))}]",
+            # fine mode: the completion log is written by the second half of a callback, the model's by the first
+            f"{tag} done [{','.join(map(str, sorted(done) if case.get('nfine') else done))}]",
             f"{tag} st " + " ".join(f"{i}:{st(i)}" for i in range(n)),
             f"{tag} calls " + " ".join(f"{i}:{calls(i)}" for i in range(n)),
             f"{tag} cls " + " ".join(f"{i}:{cls(i)}" for i in range(n)),
@@ -1233,6 +1263,9 @@ def _nest_obs(case, r):
         ]
     lines.append("chain " + r["chain"])
     lines.append("status " + ("ok" if not r["outcome"].startswith("stuck") else r["outcome"]))
+    if case.get("nfine"):
+        # callbacks still half-way when the run returned, by the composite they belong to
+        lines.append("mid [" + ",".join(sorted({_pstr(_ppath(k)[:-1]) for k in r["parked"]})) + "]")
     # the outermost composite's own run cycle
     run, failed = r["flags"]["r"]
     lines += [f"O flags {'true' if run else 'false'} {'true' if failed else 'false'}",
@@ -1269,8 +1302,12 @@ def _nest_model_input(case, r):
         lines.append("kids " + " ".join(sorted(pr["kids"], key=int)))
         if case.get("prerun"):
             lines.append("prev")
-    lines.append("nsched " + " ".join(r["trace"]))
-    lines.append("nrun")
+    if case.get("nfine"):
+        lines.append("nfsched " + " ".join(r["trace"]))
+        lines.append("nfrun")
+    else:
+        lines.append("nsched " + " ".join(r["trace"]))
+        lines.append("nrun")
     lines.append(_ncycle(case))
     return lines
 
@@ -1355,6 +1392,10 @@ def _nest_oracle(case, r):
     # running; (b) still demands that the interrupted node and the composites above it are not running.
     left = [x for x, (run, _f) in r["flags"].items() if run]
     rc = {x: v for x, v in r["running_children"].items() if v}
+    if case.get("nfine") and (r["parked"] or r.get("late_tokens")):
+        fails.append({"clause": "node-left-running",
+                      "detail": f"callbacks half-way when the run returned: {r['parked']}; released late: {r.get('late_tokens')}",
+                      "signature": sig("left-running", fine=True)})
     if (left or rc or r["late_jobs"]) and not base_only:
         fails.append({"clause": "node-left-running",
                       "detail": f"running={left} running_children={rc} jobs still out={r['late_jobs']}"
@@ -1957,3 +1998,18 @@ def join_histories(depths, quick):
                    "history": [{"fails": {second: "KeyError"}, "exec": ex, "choices": []},
                                {"fails": {}, "exec": [], "choices": []},
                                {"fails": {first: "IndexError"}, "exec": ex, "choices": []}]}
+
+
+def gen_nfine_case(rng, depth, classes):
+    """a nested tree whose macros run locally and whose function nodes may run on the executor, callbacks stepped in two
+    halves on their own threads (execfine) — failing executor children at any depth"""
+    c = gen_nest_case(rng, depth, classes, n_max=3)
+    leaves = [_pstr(p) for p in _leaves(c["prog"])]
+    ex = [l for l in leaves if rng.random() < 0.5] or [rng.choice(leaves)]
+    # prefer failing nodes that are on the executor
+    fl = {rng.choice(ex): rng.choice(classes)}
+    if rng.random() < 0.3:
+        fl[rng.choice(leaves)] = rng.choice(classes)
+    return {"kind": "nest", "nfine": True, "prog": c["prog"], "fails": fl, "exec": sorted(ex), "mode": "ctl",
+            "choices": [rng.randint(0, 5) for _ in range(60)], "prerun": False,
+            **({"suppress": True} if rng.random() < 0.2 else {})}
